@@ -81,7 +81,13 @@ class Dfs(Chooser):
         return True
 
 
+class StepBudgetExceeded(BaseException):
+    """The scenario did not become quiescent within the step budget (a busy loop or livelock)."""
+
+
 class CtlLoop(asyncio.SelectorEventLoop):
+    max_steps = 200_000
+
     def __init__(self, chooser: Callable[[int], int], on_step: Optional[Callable[[], None]] = None):
         super().__init__()
         self._chooser = chooser
@@ -135,6 +141,8 @@ class CtlLoop(asyncio.SelectorEventLoop):
         h = live[i]
         del self._ready[i]
         self.steps += 1
+        if self.steps > self.max_steps:
+            raise StepBudgetExceeded(f'no quiescence after {self.max_steps} scheduler steps')
         h._run()
         if self._on_step is not None:
             self._on_step()
@@ -148,8 +156,9 @@ def run(coro_fn: Callable[[], Any], chooser: Callable[[int], int],
         return loop.run_until_complete(coro_fn())
     finally:
         try:
-            loop.run_until_complete(loop.shutdown_asyncgens())
-        except Exception:
+            if loop.steps <= loop.max_steps:
+                loop.run_until_complete(loop.shutdown_asyncgens())
+        except BaseException:
             pass
         asyncio.set_event_loop(None)
         loop.close()
